@@ -306,7 +306,7 @@ def oracle_zero_unitary(rng, sets, n=4):
     return cnt, out
 
 
-def oracle_blocks(rng, pulse=None, n=2, warm=True, signs=None):
+def oracle_blocks(rng, pulse=None, n=2, warm=True, signs=None, angles=None):
     """every stochastic block of the single-qubit and CR factories = strength * U^dag L U at the sample's integrand
     functions; sampler covariances and drift = independent quadrature (ported from notes/mutation/oracle_suite.py).
     warm: gate sets on OTHER pulse shapes living in the same process are asked for the same angles and durations first (the
@@ -319,6 +319,7 @@ def oracle_blocks(rng, pulse=None, n=2, warm=True, signs=None):
     Qd = lambda f, a: scipy.integrate.quad(f, 0, a, epsabs=1e-12, epsrel=1e-12)[0]
     for t in range(n):
         th0 = rng.uniform(-3, 3); ph = rng.uniform(-3, 3); theta = rng.uniform(0.3, 3) * (signs[t % len(signs)] if signs else rng.choice([-1, 1]))
+        if angles is not None: theta = float(angles[t])       # prescribed angles (several turns: the integrals are not periodic in theta)
         for w in others:
             w.single_qubit_gate(theta, ph, 0.01, 5e-5, 4e-5); w.CR(theta, ph, 2.5e-7, 0.03, 2e-6, 1.5e-6, 3e-6, 2.5e-6)
         s3 = [np.sin(th0), np.sin(th0 / 2) ** 2, 1.0]; s2 = [np.cos(th0), np.sin(th0)]; z3 = [0, 0, 0]; z2 = [0, 0]
